@@ -1,6 +1,7 @@
 import NeumannModel.Common.Proto
 import NeumannModel.KV.Model
 import NeumannModel.KV.Bloom
+import NeumannModel.KV.Index
 /-
   Line-protocol driver for the concurrent-store model (C11).
 
@@ -19,6 +20,15 @@ import NeumannModel.KV.Bloom
       answer has one more field: covers=<1 when every visible key of the programs is in the filter>
     runbl <wal:0|1> <programs> <schedule>
       NOT the code: `filter.add` after the router call (`Bloom.runSchedBLate`)
+    runi <wal:0|1> <programs> <schedule>
+      the store at the granularity of the entity index's own locks (`Index.runSchedI true`): a put /
+      put_durable of an `emb:` key whose lookup under the read locks missed parks at
+      `index.get_or_create.after_miss` (one more entry in the trace) and takes the write locks in
+      its next step
+    runin <wal:0|1> <programs> <schedule>
+      NOT the code: the write section of `try_get_or_create` appends without looking again
+      (`Index.runSchedI false`)
+    witness two_first_puts | witness recreate   (schedules of `runi` / `runin`)
     witness emb_mixture | witness durable_order | witness delete_skip_if_absent | witness bloom_late_add
                     →  `<wal> <programs> <schedule>` of the Lean witness theorems
     lin <hist>  — not implemented (answers bad-op); the harness has its own Wing–Gong checker.
@@ -202,6 +212,22 @@ def showRun (w : String) (progs : List (List Op)) (sys : Sys) (image : Option St
     else ""
   base ++ walPart ++ s!" | q={if quiescent sys then 1 else 0}"
 
+def siteOfI (op : Op) : IPC → String
+  | .hook pc => siteOf op pc
+  | .idxMiss _ => "index.get_or_create.after_miss"
+
+/-- the run of the index-granularity machine, rendered as `showRun` renders `Sys` -/
+def showRunI (w : String) (progs : List (List Op)) (sys : ISys) : String :=
+  let ks := keyUniverse progs
+  let tr := joinOr (sys.trace.map fun (t, op, pc) => s!"{t}:{siteOfI op pc}:{opKeyStr op}")
+  let hi := joinOr (sys.hist.map fun r => s!"{r.t}.{r.i}:{r.inv}-{r.ret}:{showRes r.res}")
+  let base := s!"trace {tr} | hist {hi} | image {showImage sys.store ks}"
+  let walPart :=
+    if w = "1" then
+      s!" | wal {joinOr (sys.store.wal.map showEntry)} | rimage {showImage (recover sys.store.wal) ks}"
+    else ""
+  base ++ walPart ++ s!" | q={if quiescentI sys then 1 else 0}"
+
 def kvStep (_ : Unit) (line : String) : Unit × String :=
   let bad := ((), "bad-op")
   match words line with
@@ -210,6 +236,18 @@ def kvStep (_ : Unit) (line : String) : Unit × String :=
       | some progs, some sched =>
           if w ≠ "0" ∧ w ≠ "1" then bad else
           ((), showRun w progs (runSched (w = "1") progs sched))
+      | _, _ => bad
+  | ["runi", w, ps, sc] =>
+      match parseProgs ps, parseNats sc with
+      | some progs, some sched =>
+          if w ≠ "0" ∧ w ≠ "1" then bad else
+          ((), showRunI w progs (runSchedI true (w = "1") progs sched))
+      | _, _ => bad
+  | ["runin", w, ps, sc] =>
+      match parseProgs ps, parseNats sc with
+      | some progs, some sched =>
+          if w ≠ "0" ∧ w ≠ "1" then bad else
+          ((), showRunI w progs (runSchedI false (w = "1") progs sched))
       | _, _ => bad
   | [cmd, w, ps, sc] =>
       if cmd ≠ "runb" ∧ cmd ≠ "runbl" then bad else
@@ -224,6 +262,8 @@ def kvStep (_ : Unit) (line : String) : Unit × String :=
   | ["witness", "emb_mixture"] => ((), s!"0 {showProgs embMixtureProgs} {showNats embMixtureSched}")
   | ["witness", "durable_order"] => ((), s!"1 {showProgs durableOrderProgs} {showNats durableOrderSched}")
   | ["witness", "delete_skip_if_absent"] => ((), s!"1 {showProgs putDeleteAbsentProgs} {showNats putDeleteAbsentSched}")
+  | ["witness", "two_first_puts"] => ((), s!"0 {showProgs twoFirstPutsProgs} {showNats twoFirstPutsSched}")
+  | ["witness", "recreate"] => ((), s!"0 {showProgs recreateProgs} {showNats recreateSched}")
   | ["witness", "bloom_late_add"] => ((), s!"0 {showProgs lateAddProgs} {showNats lateAddSched}")
   | _ => bad
 
